@@ -360,7 +360,7 @@ static uint64_t vx_put_u(char* out, uint64_t k, uint64_t n, uint64_t v, unsigned
   for (int i = 21; i >= 0; --i) if (i < nd) { if (k + 1 < n) out[k] = d[i]; ++k; }
   return k;
 }
-int vx_vsnprintf(char* out, uint64_t n, const char* f, va_list ap) {
+int vx_vsnprintf_long(char* out, uint64_t n, const char* f, va_list ap) {
   uint64_t k = 0;
   for (int guard = 0; guard < 64 && *f; ++guard, ++f) {
     if (f[0] != '%') { if (k + 1 < n) out[k] = *f; ++k; continue; }
@@ -381,9 +381,22 @@ int vx_vsnprintf(char* out, uint64_t n, const char* f, va_list ap) {
   if (n) out[k < n ? k : n - 1] = 0;
   return (int)k;
 }
-int snprintf(void* buf, uint64_t n, void* fmt, ...) { va_list ap; va_start(ap, fmt); int r = vx_vsnprintf((char*)buf, n, (const char*)fmt, ap); va_end(ap); return r; }
+int snprintf(void* buf, uint64_t n, void* fmt, ...) { va_list ap; va_start(ap, fmt); int r = vx_vsnprintf_long((char*)buf, n, (const char*)fmt, ap); va_end(ap); return r; }
 int fprintf(void* f, void* fmt, ...) { return 0; }
 uint64_t fwrite(void* p, uint64_t s, uint64_t n, void* f) { return n; }
+
+/* bloc::Error::what() (inline in exception.h) when a harness cuts error-text formatting (--stub):
+ * "%s" messages (user / external errors) yield their argument, every other message a fixed text.
+ * Layout of bloc::Error: vptr, const char* _message, std::string _arg. */
+void* _ZNK4bloc5Error4whatEv(void* self) {
+  static char buf[256];
+  const char* m = *(const char**)((char*)self + 8);
+  struct vx_str* a = (struct vx_str*)((char*)self + 16);
+  if (m == 0) buf[0] = 0;
+  else if (m[0] == '%' && m[1] == 's' && m[2] == 0) { for (int i = 0; i < 16; ++i) buf[i] = ((uint64_t)i < a->len) ? a->p[i] : 0; __CPROVER_assert(a->len <= 15, "model bound: error argument longer than 15 bytes"); }
+  else { buf[0] = 'E'; buf[1] = 0; }
+  return buf;
+}
 
 /* ---- strto* : exact models for digit strings of up to 20 characters ---- */
 static int vx_digit(char c, int base) {
